@@ -250,7 +250,7 @@ def run(ctx):
             problems.append("trace too short: %d events" % nevents)
         dev = "{" + ", ".join('"%s"' % d for d in sorted(devs_seen)) + "}"
         rt = ctx.tlc("RelayTrace", "Relay_trace.cfg", workers=1, timeout=1500, copy={tall: "trace.ndjson"},
-                     defines={"Dev": dev}, allow_violation=True, heap="4g")
+                     defines={"Dev": dev}, allow_violation=True, allow_rejected=True, heap="4g")
         stuck = [ln for ln in rt["lines"] if "STUCK" in ln]
         if rt["ok"] and not stuck:
             tv = len([e for e in events if e.get("ev") == "reset"])
